@@ -53,7 +53,8 @@ PGInit == Init /\ ref \in Refs /\ script = <<>>
 PGNext ==
     /\ Next
     /\ ref' = ref
-    /\ IF rngPos' > rngPos THEN \E I \in Pool : script' = Append(script, I) ELSE script' = script
+    \* a sample's annotators come from the input's annotators (ground truth = all of them): never more annotators than the input has
+    /\ IF rngPos' > rngPos THEN \E I \in {J \in Pool : J.n <= ref.n} : script' = Append(script, I) ELSE script' = script
     /\ (pc = "decide" /\ HasPrecision) =>
             LET r == Req(Xs(SubSeq(script, 1, N))) IN extra' = (IF r > N THEN r - N ELSE 0)
 PGSpec == PGInit /\ [][PGNext]_pvars /\ WF_pvars(PGNext)
